@@ -507,8 +507,8 @@ def run(ctx):
         runs.append(("exhaustive: bare spines depth<=5 with <=1 link; 120 pseudo-random wide trees of depth 5", C(5, 0, 0, 1, 0, 120), False))
     else:
         runs.append(("exhaustive: spines depth<=2, full branching depth<=2 (action coverage)", C(2, 1, 2, 1, 1, 0), True))
-        runs.append(("exhaustive: spines depth<=5 with a side branch and <=1 link, full branching depth<=2; 2000 pseudo-random wide trees",
-                     C(5, 1, 2, 1, 1, 2000), False))
+        runs.append(("exhaustive: spines depth<=5 with a side branch and <=1 link, full branching depth<=2; 1200 pseudo-random wide trees",
+                     C(5, 1, 2, 1, 1, 1200), False))
         runs.append(("exhaustive: full branching depth<=3 without links", C(1, 0, 3, 0, 0, 0), False))
     _G.update(root=root, seed=ctx.seed)
     total = {"eval": 0, "cases": 0, "trees": 0, "init_rich": 0, "hist": 0}
@@ -539,7 +539,7 @@ def run(ctx):
                 shapes[s] = shapes.get(s, 0) + n
             findings += fs
         del lines
-    findings += _code_to_spec(ctx, workers, 200 if ctx.quick else 3000)
+    findings += _code_to_spec(ctx, workers, 200 if ctx.quick else 2000)
     for s in shapes:
         ctx.count(("shape", s), n=0)
     ctx.count(n=total["eval"], traces=total["cases"])
